@@ -206,6 +206,11 @@ func strCorpus() []StrCase {
 	// design-phase witness: SWRR running weights are stale after a removal
 	out = append(out, StrCase{Kind: 2, Ops: append([]StrOp{{K: "add", W: 6}, {K: "add", W: 1}, {K: "add", W: 1}, {K: "add", W: 1},
 		{K: "pick"}, {K: "pick"}, {K: "pick"}, {K: "rm", ID: 1}}, repOp(StrOp{K: "pick"}, 9)...)})
+	// a heavy backend is ejected and then removed while still ejected: the survivors start a fresh cycle all the same
+	out = append(out, StrCase{Kind: 2, Ops: append(append([]StrOp{{K: "add", W: 20}, {K: "add", W: 1}, {K: "add", W: 1}}, repOp(StrOp{K: "pick"}, 8)...),
+		append([]StrOp{{K: "flag", ID: 1, F: false}, {K: "rm", ID: 1}}, repOp(StrOp{K: "pick"}, 22)...)...)})
+	out = append(out, StrCase{Kind: 2, Ops: append(append([]StrOp{{K: "add", W: 1}, {K: "add", W: 9}, {K: "add", W: 2}}, repOp(StrOp{K: "pick"}, 5)...),
+		append([]StrOp{{K: "flag", ID: 2, F: false}, {K: "pick"}, {K: "rm", ID: 2}}, repOp(StrOp{K: "pick"}, 12)...)...)})
 	// fresh SWRR pool, three periods
 	out = append(out, StrCase{Kind: 2, Ops: append([]StrOp{{K: "add", W: 5}, {K: "add", W: 1}, {K: "add", W: 1}}, repOp(StrOp{K: "pick"}, 21)...)})
 	// known finding wrr-flap-beyond-two-ratio: five backends of weights 8,1,1,1,1; 88 picks, each with its own eligible set
